@@ -1,6 +1,7 @@
 package main
 
 import (
+	"runtime/pprof"
 	"fmt"
 	"io"
 	"log"
@@ -32,6 +33,15 @@ func main() {
 		// the library prints diagnostics with fmt.Printf: keep them out of our output
 		if devnull, err := os.OpenFile(os.DevNull, os.O_WRONLY, 0); err == nil {
 			os.Stdout = devnull
+		}
+		if pf := os.Getenv("VERIF_CPUPROFILE"); pf != "" {
+			if f, err := os.Create(pf); err == nil {
+				pprof.StartCPUProfile(f)
+				rc := runEngine(os.Args[2:])
+				pprof.StopCPUProfile()
+				f.Close()
+				os.Exit(rc)
+			}
 		}
 		os.Exit(runEngine(os.Args[2:]))
 	default:
